@@ -195,6 +195,28 @@ def run(chk):
                     if "params" in r:
                         j["params"] = mmv.rand(r["params"], rng, 1, 2)
                     cases.append({"target": names[0], "kind": "notification", "entry": r, "input": j})
+        # an explicit null wherever null is a VALID value of a required position: LSPAny-typed required properties / params, required
+        # `T | null` properties (the object is built with None there and the null must be written)
+        def admits_null(t):
+            t = mmv.resolve_alias(t)
+            return (t["kind"] == "reference" and t["name"] == "LSPAny") or mmv.null_adm(t)
+        for sn in mmv.S:
+            if sn == "LSPObject" or sn not in pkg["classes"]:
+                continue
+            base = None
+            for pn, pr in mmv.flat(sn).items():
+                if not pr.get("optional") and admits_null(pr["type"]):
+                    base = base if base is not None else mmv.value(mmlib.ref(sn), 0, 0, 0)
+                    cases.append({"target": sn, "kind": "struct", "input": dict(base, **{pn: None})})
+        for kind, r in mmv.messages():
+            names = pkg["methods"].get(r["method"])
+            if names and "params" in r and admits_null(r["params"]):
+                j = {"params": None}
+                if kind == "request":
+                    j["id"] = 1
+                cases.append({"target": names[0], "kind": kind, "entry": r, "input": j})
+            if names and kind == "request" and names[1] and admits_null(r["result"]):
+                cases.append({"target": names[1], "kind": "response", "entry": r, "input": {"id": 1, "result": None}})
         p = V.run_py("r_ctor.py", input_=json.dumps({"cases": cases}), timeout=3600)
         if p.returncode != 0:
             raise RuntimeError("r_ctor failed: " + p.stderr[-2000:])
